@@ -263,8 +263,8 @@ class TetMesh:
         tnew = tlookup[self.t]
         # convert vkeep to index list
         vkeep = np.nonzero(vkeep)[0]
-        self.v = vnew
-        self.t = tnew
+        # set new vertices and tetras and re-init adj matrix
+        self.__init__(vnew, tnew)
         return vkeep, vdel
 
     def orient_(self):
